@@ -457,12 +457,55 @@ def c11(tier):
     return out
 
 
+HBP_SEQS_QUICK = [
+    'TTTTT', 'WTTTT', 'ATTTT', 'TWTTT', 'NTTTT', 'STTTT', 'NSTPT', 'RTTTT', 'TRTTT', 'WRTTT', 'NRTTT',
+    'NETTT', 'NEGTT', 'ETGTT', 'NIGGT', 'NIGTT', 'NIETT', 'NEITG', 'NGETT', 'CTTTT', 'CDTTT', 'CTDTT', 'NCGTT', 'NEDTT',
+    'NEGET', 'NEWTT', 'ENGTT', 'NESNT', 'NEPNT', 'TNETG', 'NEEWGTT', 'NEEAGTT', 'NIGEWGT', 'NEIGEGT',
+]
+
+
+def hbp_inst(seq, hb0=2, sync=False, name=None, vals=None):
+    defs = dict(NODE_DEFS)
+    defs.update({'OPSEQ': '"%s"' % seq, 'HB0': hb0, 'CO_VERIF_SDO_BUF_SEG': 2, 'OD_TMR_N': 4})
+    if vals is not None:
+        defs['VALS'] = '{' + ','.join(str(v) for v in vals) + '}'
+    if sync:
+        defs['CHECK_SYNC'] = None
+    uw = node_unwind(2)
+    uw.update(lss_unwind())
+    uw.update({'COTmrDelete': 5, 'COTmrInsert': 5, 'COTmrRemove': 6, 'COTmrProcess': 5, 'COTmrReset': 5, 'CoVerifTmrPool': 5, 'COTmrClear': 4,
+               'COSyncInit': 4, 'COSyncHandler': 4, 'COSyncUpdate': 4, 'COTPdoGetMap': 10, 'COTPdoTx': 10, 'CORPdoReset': 10, 'CORPdoGetMap': 10,
+               'count_id': 17, 'COEmcyReset': 6})
+    tmr_cbs = ['app_cb']
+    return Inst(name or ('hbp_%s_h%d%s' % (seq, hb0, ('_v' + ''.join(str(v) for v in vals)) if vals is not None else '')), 'hbp_bmc.c', defs, unwind=18, unwindset=uw, objbits=10, tmr_cbs=tmr_cbs,
+                harness_only=['OPSEQ', 'HB0', 'CHECK_SYNC', 'VALS'], family='hbp_bmc',
+                bounds='operation kinds %s (see hbp_bmc.c), initial 1017h %d ms, written times per step %s, timer frequency 1 kHz, pool 4' % (seq, hb0, list(vals) if vals is not None else '0..3 ms symbolic'))
+
+
+def c10(tier):
+    out = []
+    seqs = list(HBP_SEQS_QUICK)
+    if tier != 'quick':
+        import itertools
+        for t in itertools.product('TWGEN', repeat=4):
+            seqs.append('N' + ''.join(t) + 'T')
+    valsets = [(1, 1, 1, 1, 1, 1, 1), (3, 2, 1, 2, 3, 1, 2), (0, 1, 0, 2, 2, 0, 1)] if tier == 'quick' else \
+              [(1, 1, 1, 1, 1, 1, 1), (3, 2, 1, 2, 3, 1, 2), (0, 1, 0, 2, 2, 0, 1), (2, 2, 2, 2, 2, 2, 2), (1, 3, 3, 1, 0, 2, 3), (2, 0, 2, 0, 1, 3, 0)]
+    for sq in seqs:
+        for hb0 in ((2,) if tier == 'quick' else (1, 2, 0)):
+            needs = any(c in sq for c in 'WAEICYX')
+            for vs in (valsets if needs else [None]):
+                out.append(hbp_inst(sq, hb0, vals=vs))
+    return out
+
+
 def c01(tier):
     return sdo_step_insts(tier) + sdo_two_servers(tier)
 
 
 PROPS = {
     'C01': c01,
+    'C10': c10,
     'C11': c11,
     'C18': c18,
     'C15': c15,
